@@ -132,8 +132,9 @@ static void run_sink(hctx* h, fcase* fc, int kind, long k, const uint8_t* good, 
                 void* v = batch_values(&fc->cols[t->col], t);
                 int16_t* d = NULL;
                 if (t->has_defs) { d = (int16_t*)h_alloc((size_t)(t->nrows ? t->nrows : 1) * 2); for (int q = 0; q < t->nrows; q++) d[q] = t->defs[q]; }
-                r = (int)carquet_writer_write_batch(w, t->col, v, t->nrows, d, NULL);
-                free(v); free(d);
+                int16_t* rl = batch_reps(t);
+                r = (int)carquet_writer_write_batch(w, t->col, v, t->nrows, d, rl);
+                free(v); free(d); free(rl);
             }
             fprintf(h->out, "%s%d", first ? "" : ",", r); first = 0; if (r != 0) any_bad = 1;
         }
@@ -195,8 +196,9 @@ static void run_abort_limited(hctx* h, fcase* fc, int at, long lim) {
                 void* v = batch_values(&fc->cols[t->col], t);
                 int16_t* d = NULL;
                 if (t->has_defs) { d = (int16_t*)h_alloc((size_t)(t->nrows ? t->nrows : 1) * 2); for (int q = 0; q < t->nrows; q++) d[q] = t->defs[q]; }
-                (void)!carquet_writer_write_batch(w, t->col, v, t->nrows, d, NULL);
-                free(v); free(d);
+                int16_t* rl = batch_reps(t);
+                (void)!carquet_writer_write_batch(w, t->col, v, t->nrows, d, rl);
+                free(v); free(d); free(rl);
             }
         }
         if (w) carquet_writer_abort(w);
@@ -230,8 +232,9 @@ static void run_abort(hctx* h, fcase* fc, int at) {
             void* v = batch_values(&fc->cols[t->col], t);
             int16_t* d = NULL;
             if (t->has_defs) { d = (int16_t*)h_alloc((size_t)(t->nrows ? t->nrows : 1) * 2); for (int q = 0; q < t->nrows; q++) d[q] = t->defs[q]; }
-            (void)!carquet_writer_write_batch(w, t->col, v, t->nrows, d, NULL);
-            free(v); free(d);
+            int16_t* rl = batch_reps(t);
+            (void)!carquet_writer_write_batch(w, t->col, v, t->nrows, d, rl);
+            free(v); free(d); free(rl);
         }
     }
     if (w) carquet_writer_abort(w);
